@@ -78,6 +78,22 @@ def worker(unit, emit):
                     rec(''.join(rnd.choice(alpha) for _ in range(n)), 'random len %d' % n)
             for x in ('', ' ', '-', 'X', '0', '00000000', 'M', 'RF', 'IMO', 'GRID:', '--', '9-', '\n'):
                 rec(x, 'degenerate')
+    elif kind == 'made':
+        items = unit[1]
+        rnd = random.Random('%s/made/%d' % (p['seed'], len(items)))
+        for f, sub, x in items:
+            mod = lib.module(FORMATS[f])
+            kw = {'check_country': False} if f == 'iban' else {}
+            pres = [x, ' ' + x + ' ', x.lower()]
+            if len(x) > 4:
+                i = rnd.randrange(1, len(x))
+                pres += [x[:i] + ' ' + x[i:], x[:i] + '-' + x[i:]]
+            for y in pres:
+                r = lib.call(mod.validate, y, **kw)
+                emit.trace([{'kind': 'val', 'f': f, 'x': lib.cps(y), 'r': sl(r)}],
+                           {'m': FORMATS[f], 'w': y, 'how': 'constructed by the spec (%s)' % sub, 'site': r['site'], 'outcome': r['cls'] or lib.from_cps(r['v'])})
+                emit.count('val')
+                emit.count('made')
     elif kind == 'block':
         f, blocks = unit[1], unit[2]
         from stdnum import issn, imo, ean
@@ -226,6 +242,21 @@ def main():
     for f in sorted(FORMATS):
         for part in range(4):
             units.append(('val', f, part, 4, p))
+    # spec -> code: identifiers constructed by the transcription itself (every length / branch of every format)
+    nmade = 1500 if quick else 40000
+    rg = tlc.run('Gen_Formats', workdir=chk.work, workers=1, env={'TABLE_FILE': tfile}, simulate='num=%d' % nmade, depth=3, seed=chk.seed)
+    if rg.violated or rg.error:
+        raise run.MachineryError('Gen_Formats: the generator disagrees with the transcription (%s)\n%s' % (rg.violated, rg.out[-1500:]))
+    made = []
+    for ln in rg.prints:
+        v = tlc.parse_value(ln)
+        if v and v[0] == 'MADE':
+            made.append((v[1], v[2], lib.from_cps(v[3])))
+    if len(made) < nmade:
+        raise run.MachineryError('Gen_Formats produced %d identifiers' % len(made))
+    chk.cov['stages'].append({'stage': 'GEN', 'spec': 'Gen_Formats', 'identifiers': len(made)})
+    for i in range(16):
+        units.append(('made', made[i::16], p))
     spaces = {'issn': 10 ** 7, 'imo': 10 ** 6, 'ean8': 10 ** 7}
     for f, size in spaces.items():
         allb = list(range(0, size, 10 ** 4))
@@ -251,7 +282,7 @@ def main():
                       rule='per format: corpus presentations, every single-character replacement at every position over 0-9A-Z, deletions, insertions, '
                            'adjacent swaps, hostile ASCII characters appended/prepended/inserted, case and padding variants, random strings at and '
                            'around the format lengths; block digests of the complete ISSN / IMO / EAN-8 payload spaces (sampled in quick)',
-                      extra={'formats': sorted(FORMATS) + ['bitcoin'], 'validate_events': extra.get('val', 0), 'block_payloads': extra.get('block_payloads', 0)})
+                      extra={'formats': sorted(FORMATS) + ['bitcoin'], 'constructed_by_spec': extra.get('made', 0), 'validate_events': extra.get('val', 0), 'block_payloads': extra.get('block_payloads', 0)})
 
 
 if __name__ == '__main__':
